@@ -14,10 +14,13 @@ Proof. intros H. exists []. exact H. Qed.
 Lemma ext_in a b x : ext a b -> In x (s_out a) -> In x (s_out b).
 Proof. intros [l H] Hin. rewrite H. apply in_or_app. now right. Qed.
 
+Lemma ext_handed a b c n str : ext a b -> handed a c n str -> handed b c n str.
+Proof. intros E [x H]. exists x. eapply ext_in; eauto. Qed.
+
 Lemma ext_upd s c v : ext s (upd s c v).
 Proof. apply ext_same. now destruct (upd_conn s c v) as (_ & _ & O & _). Qed.
 Lemma ext_write s c n str : ext s (write s c n str).
-Proof. exists [{| o_chan := c; o_name := n; o_str := str |}]. now destruct (write_chans s c n str) as (_ & _ & _ & W & _). Qed.
+Proof. exists [{| o_chan := c; o_name := n; o_str := str; o_sent := negb (s_sendfail s) |}]. now destruct (write_chans s c n str) as (_ & _ & _ & W & _). Qed.
 
 Lemma ext_on_frame s c f : ext s (on_frame s c f).
 Proof.
@@ -34,7 +37,7 @@ Lemma ext_deliver s cf : ext s (deliver s cf).
 Proof.
   unfold deliver. destruct (s_io s); [|apply ext_refl]. cbn [negb].
   set (s' := {| s_conn := s_conn s; s_cerrs := s_cerrs s; s_chans := s_chans s; s_uuid := s_uuid s;
-                s_out := s_out s; s_io := true; s_in := cf :: s_in s |}).
+                s_out := s_out s; s_io := true; s_in := cf :: s_in s; s_sendfail := s_sendfail s |}).
   assert (E : ext s s') by (apply ext_same; reflexivity).
   eapply ext_trans; [exact E|].
   destruct (Nat.eqb (fst cf) 0).
@@ -95,7 +98,7 @@ Qed.
 Lemma rpc_request_written sc s c v w wstr names uc s' v' r sc' :
   rpc_request sc s c v w wstr names uc = (s', v', r, sc') ->
   ext s s' /\
-  ((exists e, r = Raise e) \/ In {| o_chan := c; o_name := w; o_str := wstr |} (s_out s')).
+  ((exists e, r = Raise e) \/ handed s' c w wstr).
 Proof.
   unfold rpc_request. pose proof (ext_adapter_check s c v uc) as H0.
   destruct (adapter_check s c v uc) as [[s0 v0] [x|e]]; cbn [fst] in H0.
@@ -104,31 +107,31 @@ Proof.
   match goal with |- context [get_request sc (write ?s1 c w wstr) c ?v1 ?u false uc] =>
     set (sw := write s1 c w wstr); pose proof (ext_get_request sc sw c v1 u false uc) as H1;
     assert (Hs1 : ext s0 s1) by (apply ext_same; reflexivity);
-    assert (Hw : In {| o_chan := c; o_name := w; o_str := wstr |} (s_out sw))
-      by (unfold sw; destruct (write_chans s1 c w wstr) as (_ & _ & _ & W & _); rewrite W; now left)
+    assert (Hw : handed sw c w wstr)
+      by (unfold sw, handed; destruct (write_chans s1 c w wstr) as (_ & _ & _ & W & _); rewrite W; eexists; now left)
   end.
   intros E. rewrite E in H1. cbn [fst] in H1. split.
   - eapply ext_trans; [exact H0|]. eapply ext_trans; [exact Hs1|].
     eapply ext_trans; [apply ext_write | exact H1].
-  - right. eapply ext_in; eauto.
+  - right. eapply ext_handed; eauto.
 Qed.
 
 Lemma do_cancel_written sc s c v t s' v' r sc' :
   do_cancel sc s c v t = (s', v', r, sc') ->
-  ext s s' /\ ((exists e, r = RErr e) \/ In {| o_chan := c; o_name := WCancel; o_str := t |} (s_out s')).
+  ext s s' /\ ((exists e, r = RErr e) \/ handed s' c WCancel t).
 Proof.
   unfold do_cancel.
   destruct (rpc_request sc s c v WCancel t [NCancelOk] false) as [[[s1 v1] r1] sc1] eqn:E.
   destruct (rpc_request_written _ _ _ _ _ _ _ _ _ _ _ _ E) as [Hx Hw].
   destruct r1 as [fo|e].
   - intros [= <- <- <- <-]. split; [eapply ext_trans; [exact Hx | apply ext_upd]|].
-    destruct Hw as [[e He]|Hw]; [discriminate|]. right. eapply ext_in; [apply ext_upd | exact Hw].
+    destruct Hw as [[e He]|Hw]; [discriminate|]. right. eapply ext_handed; [apply ext_upd | exact Hw].
   - intros [= <- <- <- <-]. split; [exact Hx | left; eauto].
 Qed.
 
 Lemma cancel_all_written : forall tags sc s c v s' v' sc',
   cancel_all tags sc s c v = (s', v', Ok tt, sc') ->
-  ext s s' /\ forall t, In t tags -> In {| o_chan := c; o_name := WCancel; o_str := t |} (s_out s').
+  ext s s' /\ forall t, In t tags -> handed s' c WCancel t.
 Proof.
   induction tags as [|t tags IH]; intros sc s c v s' v' sc' E; cbn [cancel_all] in E.
   - injection E as <- <- <-. split; [apply ext_refl | intros t []].
@@ -138,13 +141,13 @@ Proof.
       try (destruct (IH _ _ _ _ _ _ _ E) as [Hx2 Hall];
            split; [eapply ext_trans; eauto|];
            intros t' [<-|Hin]; [|now apply Hall];
-           destruct Hw as [[e He]|Hw]; [discriminate | eapply ext_in; eauto]).
+           destruct Hw as [[e He]|Hw]; [discriminate | eapply ext_handed; eauto]).
 Qed.
 
 Theorem stop_cancels_all sc s c v s' v' sc' :
   c_state v <> CLOSED ->
   do_stop sc s c v = (s', v', Ok tt, sc') ->
-  (forall t, In t (c_tags v) -> In {| o_chan := c; o_name := WCancel; o_str := t |} (s_out s')) /\
+  (forall t, In t (c_tags v) -> handed s' c WCancel t) /\
   c_tags v' = [].
 Proof.
   intros Hst. unfold do_stop. destruct (c_tags v) as [|t ts] eqn:Et.
@@ -154,5 +157,5 @@ Proof.
     destruct (cancel_all (t :: ts) sc s c v) as [[[s1 v1] r1] sc1] eqn:E.
     destruct r1 as [[]|e]; [|discriminate].
     intros [= <- <- <-]. destruct (cancel_all_written _ _ _ _ _ _ _ _ E) as [Hx Hall].
-    split; [|reflexivity]. intros t' Hin. eapply ext_in; [apply ext_upd | now apply Hall].
+    split; [|reflexivity]. intros t' Hin. eapply ext_handed; [apply ext_upd | now apply Hall].
 Qed.
